@@ -23,7 +23,10 @@ STRATA = [
     ("max-nodes", 150, 3000),
     ("unbounded", 100, 2000),
     ("deep-tree", 150, 3000),
+    ("inplace-seq", 250, 3000),
+    ("many-nodes", 1, 8),
 ]
+BATCH = {"many-nodes": 1}
 REQUIRED_EVENTS = {"any": ["milp.judged", "milp.optimal-checked", "milp.solutions-entry-checked", "nested.lp.simplex.judged",
                            "milp.l2.is_feasible", "milp.l2.round_binary"]}
 
@@ -124,6 +127,61 @@ def _bound_rows(rng, n, A, b, umax=5, binary=False):
 
 
 def gen(stratum, rng, tier):
+    if stratum == "many-nodes":
+        # 0/1 programs with two subset-sum equalities that share one planted solution (a needle: usually the only
+        # feasible point): branch and bound needs of the order of a thousand nodes and - on about half of them - more
+        # than 10 000 simplex iterations in total before it gets there.  The limits of the search (per-LP iteration
+        # cap, node limit) are per-call quantities, whatever the size of the tree.  Judged by the planted certificate.
+        subs = []
+        for _ in range(3 if tier == "quick" else 5):
+            n = rng.randint(17, 18)
+            pick = [rng.random() < 0.5 for _ in range(n)]
+            A, b = [], []
+            for _k in range(2):
+                row = [rng.randint(3, 40) for _ in range(n)]
+                t = sum(v for v, p in zip(row, pick) if p)
+                A += [row, [-v for v in row]]
+                b += [t, -t]
+            for j in range(n):
+                r = [0] * n
+                r[j] = 1
+                A.append(r)
+                b.append(1)
+            subs.append({"kind": "bin", "c": [rng.randint(1, 30) for _ in range(n)], "A": A, "b": b, "ints": list(range(n)),
+                         "minimize": rng.random() < 0.5, "rounds": 1, "cfg": {}, "planted": [int(p) for p in pick]})
+        return {"kind": "bin-multi", "subs": subs}
+    if stratum == "inplace-seq":
+        # k-best enumeration the way callers write it: ONE constraint matrix, a no-good cut appended in place after each
+        # solve, same seed, LNS on - every round is a new problem and has to be answered as such
+        if rng.random() < 0.6:
+            # two knapsack rows, similar values, many LNS passes: the rounded incumbent of the next round is the one of
+            # this round, so that anything remembered about "the same" sub-problem is remembered about another problem
+            n = rng.randint(8, 10)
+            A = [[rng.randint(5, 30) for _ in range(n)] for _ in range(2)]
+            b = [sum(r) * rng.choice([40, 45, 50]) // 100 for r in A]
+            for j in range(n):
+                r = [0] * n
+                r[j] = 1
+                A.append(r)
+                b.append(1)
+            return {"kind": "bin", "c": [rng.randint(10, 25) for _ in range(n)], "A": A, "b": b, "ints": list(range(n)),
+                    "minimize": False, "rounds": 4, "cfg": {"lns_iterations": rng.choice([10, 20, 20, 30]), "seed": rng.randint(0, 99)},
+                    "cut": "support"}
+        n = rng.randint(4, 9)
+        hi = rng.choice([9, 30])
+        A = [[rng.randint(1, hi) for _ in range(n)] for _ in range(rng.randint(1, 2))]
+        b = [max(1, sum(r) * rng.choice([3, 4, 5, 6]) // 10) for r in A]
+        for j in range(n):
+            r = [0] * n
+            r[j] = 1
+            A.append(r)
+            b.append(1)
+        cfg = {"lns_iterations": rng.choice([1, 2, 4, 8, 10, 15]), "seed": rng.randint(0, 99)}
+        if rng.random() < 0.2:
+            cfg = {"heuristics": rng.random() < 0.5}
+        return {"kind": "bin", "c": [rng.randint(1, 12) for _ in range(n)], "A": A, "b": b, "ints": list(range(n)),
+                "minimize": False, "rounds": rng.randint(2, 5), "cfg": cfg,
+                "cut": rng.choice(["support", "support", "point"])}
     n = rng.randint(1, 4)
     m = rng.randint(1, 4)
     minimize = rng.random() < 0.5
@@ -411,9 +469,89 @@ def _feasible_point(case, x, tag, obs):
     return True
 
 
+def _run_bin(case, obs):
+    """Pure 0/1 programs judged by complete enumeration; `rounds` > 1: the same A / b objects get a no-good cut appended
+    in place after every solve."""
+    from itertools import product
+
+    from vf.common import call, is_crash
+
+    c, ints, minimize, cfg = case["c"], case["ints"], case["minimize"], dict(case["cfg"])
+    A = [list(r) for r in case["A"]]  # this object is handed to every round
+    b = list(case["b"])
+    n = len(c)
+    obs.mode("exact")
+    obs.nontrivial = True
+    planted = case.get("planted")
+    for rnd in range(case["rounds"]):
+        best, arg = None, None
+        if planted is not None:
+            # too many points to enumerate: the planted point proves feasibility and bounds the optimum from one side
+            best, arg = sum(ci * v for ci, v in zip(c, planted)), tuple(planted)
+        else:
+            for x in product((0, 1), repeat=n):
+                if all(sum(a * v for a, v in zip(row, x)) <= rhs for row, rhs in zip(A, b)):
+                    val = sum(ci * v for ci, v in zip(c, x))
+                    if best is None or (val < best if minimize else val > best):
+                        best, arg = val, x
+        _lpmon.drain()
+        res = call(obs, _milp.solve_milp, c, A, b, ints, minimize=minimize, what=f"solve_milp[round {rnd}]",
+                   budget=3_000_000_000 if n > 10 else 60_000_000, **cfg)
+        _lpmon.drain()
+        _l2["events"].clear()
+        _l2["bad"].clear()
+        if is_crash(res):
+            return
+        st = res.status.name
+        obs.outcome(st)
+        obs.event("milp.judged")
+        tag = f"round {rnd} ({len(A)} rows, cfg={cfg})"
+        if st in ("OPTIMAL", "FEASIBLE"):
+            if not _feasible_point({"c": c, "A": A, "b": b, "ints": ints}, res.solution, "solution", obs):
+                return
+            val = sum(ci * v for ci, v in zip(c, res.solution))
+            if abs(val - res.objective) > 1e-6 * (1 + abs(val)):
+                obs.violate("milp.objective-not-cx", f"{tag}: reported {res.objective}, c.x={val}")
+                return
+            if best is None:
+                obs.inconc("enumeration found no point but the returned one passed the certificate")
+                return
+            if st == "OPTIMAL":
+                obs.event("milp.optimal-checked")
+                worse = (val > best + 1e-6 * (1 + abs(best))) if minimize else (val < best - 1e-6 * (1 + abs(best)))
+                if worse or (planted is None and abs(val - best) > 1e-6 * (1 + abs(best))):
+                    obs.violate("milp.optimal-not-optimal", f"{tag}: OPTIMAL obj={res.objective}, but {arg} is feasible with value {best}")
+                    return
+                if planted is not None:
+                    obs.event("milp.many-nodes.lp-iterations-over-10000" if (res.evaluations or 0) > 10000 else "milp.many-nodes.lp-iterations-under-10000")
+        elif st == "INFEASIBLE":
+            obs.event("milp.infeasible-checked")
+            if best is not None:
+                obs.violate("milp.infeasible-but-feasible", f"{tag}: INFEASIBLE although {arg} (value {best}) is integer-feasible")
+            return
+        else:
+            obs.violate("milp.unexpected-status", f"{tag}: {st} with default limits")
+            return
+        # the caller's no-good cut, appended to the same objects
+        x = [int(round(v)) for v in res.solution]
+        ones = sum(x)
+        if case.get("cut", "support") == "support" and ones:
+            A.append(list(x))  # "not this packing nor any that contains it"
+        else:
+            A.append([1 if v else -1 for v in x])  # exactly this point
+        b.append(ones - 1)
+        obs.event("milp.inplace-cut-appended")
+
+
 def run(case, obs):
     from vf.common import call, is_crash
 
+    if case.get("kind") == "bin":
+        return _run_bin(case, obs)
+    if case.get("kind") == "bin-multi":
+        for sub in case["subs"]:
+            _run_bin(sub, obs)
+        return
     c, A, b, ints = case["c"], case["A"], case["b"], case["ints"]
     orc = _oracle(case)
     if orc is None or orc.get("milp") is None:
